@@ -229,7 +229,24 @@ fn step_record(vm: &Vm) -> Value {
         },
         _ => "?".to_string(),
     };
-    json!([op, ipo, vm.verif_stack().get_sp(), vm.verif_bp(), acc_abs(vm)])
+    json!([op, ipo, vm.verif_stack().get_sp(), vm.verif_bp(), acc_abs(vm), top_abs(vm)])
+}
+
+/// abstraction of the slot on top of the control stack
+fn top_abs(vm: &Vm) -> Value {
+    let st = vm.verif_stack();
+    let sp = st.get_sp();
+    if sp == 0 {
+        return json!(["none"]);
+    }
+    match st.get(sp) {
+        Ok(VCell::ArgumentCount(n)) => json!(["argc", n]),
+        Ok(VCell::BasePointer(b)) => json!(["bp", b]),
+        Ok(VCell::EnvironmentPointer(_)) => json!(["ep"]),
+        Ok(VCell::InstructionPointer(_, _)) => json!(["ip"]),
+        Ok(v) => shallow(vm.verif_heap().verif_cells(), v),
+        Err(_) => json!(["unreadable"]),
+    }
 }
 
 /// generated forms of one session
